@@ -21,7 +21,7 @@ import traceback
 VERIF_DIR = os.path.dirname(os.path.dirname(os.path.abspath(__file__)))
 PY = "/venv/bin/python"
 
-QUICK_RUNS = {"C13": 40000, "C01": 30000, "C04": 30000, "C17": 30000, "C06": 15000, "C07": 15000, "C10": 12000}
+QUICK_RUNS = {"C13": 40000, "C01": 20000, "C04": 20000, "C17": 20000, "C06": 15000, "C07": 15000, "C10": 12000}
 THOROUGH_WALL = {"C13": 600, "C01": 600, "C04": 600, "C17": 420, "C06": 600, "C07": 600, "C10": 780}
 
 
